@@ -136,7 +136,9 @@ def generate(ctx, batch, idx):
     cfg = ctx.opts["cfg"]
     if batch == "storage":
         kind, rel, lo, hi = _plan(ctx)[idx]
-        how = r.choice(["stream", "stream", "path"])
+        # "path0": by path with res_name_or_index=0, the way the ttx command opens every binary font (the
+        # Macintosh resource-fork probe runs first)
+        how = r.choice(["stream", "stream", "path", "path0"])
         lazy = r.choice([None, True, False])
         if kind == "trunc" or kind == "trunc_ext":
             ops = [["trunc", k] for k in range(lo, hi)]
@@ -161,13 +163,13 @@ def generate(ctx, batch, idx):
             else:
                 lo = r.randrange(0, n)
                 ops.append(["zero", lo, min(n, lo + r.choice([1, 4, 16, 512, 4096]))])
-        return {"kind": "storage", "font": rel, "strict": not rel.endswith(".woff"), "how": r.choice(["stream", "path"]), "lazy": r.choice([None, True, False]), "ops": ops}
+        return {"kind": "storage", "font": rel, "strict": not rel.endswith(".woff"), "how": r.choice(["stream", "path", "path0"]), "lazy": r.choice([None, True, False]), "ops": ops}
     if batch == "garbage":
         ops = []
         for _ in range(16):
             magic = r.choice(["none", "none", "\0\1\0\0", "OTTO", "true", "ttcf", "wOFF", "wOF2"])
             ops.append(["garbage", magic, r.choice([0, 1, 3, 4, 11, 12, 13, 28, 64, 300, 5000]), r.randrange(1 << 30)])
-        return {"kind": "storage", "font": None, "strict": True, "how": r.choice(["stream", "path"]), "lazy": r.choice([None, True, False]), "ops": ops}
+        return {"kind": "storage", "font": None, "strict": True, "how": r.choice(["stream", "path", "path0"]), "lazy": r.choice([None, True, False]), "ops": ops}
     if batch == "payload":
         if "pairs" not in ctx.world:
             prepare(ctx)
@@ -247,7 +249,7 @@ def probe_open(image, how, lazy, scratch):
 
     path = None
     try:
-        if how == "path":
+        if how in ("path", "path0"):
             path = os.path.join(scratch, "img.bin")
             with open(path, "wb") as f:
                 f.write(image)
@@ -255,7 +257,7 @@ def probe_open(image, how, lazy, scratch):
         else:
             src = io.BytesIO(image)
         try:
-            font = TTFont(src, lazy=lazy)
+            font = TTFont(src, 0, lazy=lazy) if how == "path0" else TTFont(src, lazy=lazy)
         except TTLibError as e:
             return "TTLibError", str(e)[:60]
         except MemoryError:
@@ -813,7 +815,16 @@ def _run_cli(h, api, srcpath, dest, exc, fired, scratch):
                 xml = os.path.join(scratch, "dump.ttx")
                 ttx.main(["-q", "-o", xml, srcpath])
                 cls.compile = compile
-                ttx.main(["-q", "-f", "-o", dest, xml])
+                with open(srcpath, "rb") as f_:
+                    magic = f_.read(4)
+                natural = {b"OTTO": ".otf"}.get(magic, ".ttf" if magic in (b"\0\1\0\0", b"true") else None)
+                if h["tk"] % 2 and natural == os.path.splitext(dest)[1]:
+                    # no -o: the output name is derived from the input name (here it lands on the existing file)
+                    xml2 = os.path.join(scratch, os.path.splitext(os.path.basename(dest))[0] + ".ttx")
+                    os.replace(xml, xml2)
+                    ttx.main(["-q", "-f", "-d", os.path.dirname(dest), xml2])
+                else:
+                    ttx.main(["-q", "-f", "-o", dest, xml])
             elif api == "subset":
                 from fontTools import subset
 
